@@ -2,6 +2,7 @@ import Driver.Util
 import Driver.EvalD
 import Driver.StorageD
 import Driver.DecodeD
+import Driver.NotifierD
 
 /-!
   Line-protocol driver.  One operation per input line, one canonical output line per operation.
@@ -11,6 +12,7 @@ namespace Driver
 
 structure State where
   storage : StorageD.St := none
+  notifier : NotifierD.St := {}
 
 def step (st : State) (line : String) : State × String :=
   let line := line.trimAscii.toString
@@ -18,6 +20,9 @@ def step (st : State) (line : String) : State × String :=
   match line.splitOn " " with
   | "E" :: args => (st, EvalD.step args)
   | "D" :: args => (st, DecodeD.step args)
+  | "N" :: args =>
+    let (s', out) := NotifierD.step st.notifier args
+    ({ st with notifier := s' }, out)
   | "S" :: args =>
     let (s', out) := StorageD.step st.storage args
     ({ st with storage := s' }, out)
